@@ -282,6 +282,38 @@ theorem C07_abs_matrix {a : Mat K} {r c : Nat} (ha : Mat.IsShape a r c) (hr : 0 
   refine ⟨fun h => by simp only [h, if_true], fun h1 h2 => by simp only [h1, h2, if_true, if_false],
     fun h1 h2 => by simp only [h1, h2, if_false]⟩
 
+/-! ## The four matrix builtins -/
+
+/-- C07, builtins: the bodies of `determinant`, `transpose`, `inverse`, `identity` (as run after
+    the arity and domain checks) on a well-shaped square matrix / a positive size: no assertion
+    is reached, the values are the determinant, the transpose, a two-sided inverse (or the
+    `noInverseForMatrix` diagnostic at the call position exactly when the determinant is zero),
+    and the identity matrix. -/
+theorem C07_builtins {m : Mat K} {n : Nat} (hm : Mat.IsShape m n n) (hn : 0 < n) (line col : Nat) :
+    nativeBody "determinant".toList line col [.matrix m] = .ok (.number (Matrix.det (toM n n m)))
+    ∧ (∃ t, nativeBody "transpose".toList line col [.matrix m] = .ok (.matrix t)
+        ∧ Mat.IsShape t n n ∧ toM n n t = (toM n n m)ᵀ)
+    ∧ (Mat.detN n m = 0 → nativeBody "inverse".toList line col [.matrix m]
+        = .diag ⟨.noInverseForMatrix, line, col, []⟩)
+    ∧ (Mat.detN n m ≠ 0 → ∃ inv, nativeBody "inverse".toList line col [.matrix m]
+        = .ok (.matrix inv) ∧ Mat.IsShape inv n n ∧ toM n n m * toM n n inv = 1
+          ∧ toM n n inv * toM n n m = 1)
+    ∧ (∀ z : K, Kernel.reToNat z = n → ∃ e, nativeBody "identity".toList line col [.number z]
+        = .ok (.matrix e) ∧ Mat.IsShape e n n ∧ toM n n e = 1) := by
+  refine ⟨?_, ?_, ?_, ?_, ?_⟩
+  · rw [nativeBody_determinant, C07_det_call hm hn]; rfl
+  · refine ⟨_, ?_, Mat.transposeRaw_isShape hm hn, Mat.toM_transposeRaw hm hn⟩
+    rw [nativeBody_transpose, Mat.transpose_ok hm hn hn]; rfl
+  · intro hd
+    exact nativeBody_inverse_none (((C07_inverse hm hn).1).mpr hd) line col
+  · intro hd
+    obtain ⟨inv, hinv⟩ := (C07_inverse hm hn).2.1 hd
+    obtain ⟨hs, h1, h2, _⟩ := (C07_inverse hm hn).2.2 inv hinv
+    exact ⟨inv, nativeBody_inverse_some hinv line col, hs, h1, h2⟩
+  · intro z hz
+    refine ⟨_, ?_, Mat.identityRaw_isShape n, Mat.toM_identityRaw n⟩
+    rw [nativeBody_identity, hz, Mat.identity_ok hn]; rfl
+
 /-! ## Shapes: the evaluator's guards keep every assertion dead -/
 
 section shapes
@@ -316,8 +348,8 @@ theorem C07_shapes_sub (ha : Mat.IsShape a r c) (hb : Mat.IsShape b r' c') (hr :
 /-- C07, shapes, `*` of two matrices: inner sizes must agree. -/
 theorem C07_shapes_mul (ha : Mat.IsShape a r c) (hb : Mat.IsShape b r' c') (hr : 0 < r)
     (hr' : 0 < r') (hc' : 0 < c') (op : Tok K) (hop : op.tag = .star) :
-    (∀ h : c = r', ∃ s, binop op (.matrix a) (.matrix b) = .ok (.matrix s)
-        ∧ Mat.IsShape s r c' ∧ toM r c' s = toM r r' (h ▸ a) * toM r' c' b)
+    (c = r' → ∃ s, binop op (.matrix a) (.matrix b) = .ok (.matrix s)
+        ∧ Mat.IsShape s r c' ∧ toM r c' s = toM r c a * toM c c' b)
     ∧ (c ≠ r' → binop op (.matrix a) (.matrix b)
         = .diag ⟨.unsupportedBinaryOperator, op.line, op.col, []⟩) := by
   rw [binop_star_matrix ha hb hr hr' hc' op hop]
@@ -355,12 +387,12 @@ theorem C07_shapes_dot (ha : Mat.IsShape a r c) (hb : Mat.IsShape b r' c') (hr :
           = .diag ⟨.unsupportedBinaryOperator, op.line, op.col, []⟩) := by
   rw [binop_dot_matrix ha hb hr hr' op hop]
   refine ⟨fun h => ?_, fun h1 h2 => ?_, fun h1 h2 => by simp only [h1, h2, if_false]⟩
-  · simp only [h, and_self, if_true]
+  · rw [if_pos h]
     obtain ⟨rfl, rfl, rfl⟩ := h
     have h1 : (a.headD []).length = c := ha.ncols hr
     have h2 : (b.headD []).length = c := hb.ncols hr'
     rw [Mat.dotList_eq_dotProduct c _ _ h1 h2]
-  · simp only [h1, h2, and_self, if_true, if_false]
+  · rw [if_neg h1, if_pos h2]
     obtain ⟨rfl, rfl, rfl⟩ := h2
     have h1 : (Mat.col0 a).length = r := by simp [Mat.col0, ha.1]
     have h2 : (Mat.col0 b).length = r := by simp [Mat.col0, hb.1]
@@ -383,9 +415,9 @@ theorem C07_shapes_cross (ha : Mat.IsShape a r c) (hb : Mat.IsShape b r' c') (hr
           = .diag ⟨.unsupportedBinaryOperator, op.line, op.col, []⟩) := by
   rw [binop_cross_matrix ha hb hr hr' op hop]
   refine ⟨fun h => ?_, fun h => ?_, fun h1 h2 => by simp only [h1, h2, if_false]⟩
-  · exact ⟨_, by simp only [h, and_self, if_true], Mat.row_isShape _, Mat.toV_cross3 _ _ _ _ _ _⟩
+  · exact ⟨_, by rw [if_pos h], Mat.row_isShape _, Mat.toV_cross3 _ _ _ _ _ _⟩
   · have h' : ¬ (r = 1 ∧ r' = 1 ∧ c = 3 ∧ c' = 3) := by omega
-    exact ⟨_, by simp only [h', h, and_self, if_true, if_false], Mat.row_isShape _,
+    exact ⟨_, by rw [if_neg h', if_pos h], Mat.row_isShape _,
       Mat.toV_cross3 _ _ _ _ _ _⟩
 
 /-- C07, shapes, the remaining binary operators on two matrices (`/ ^ %`) are refused. -/
@@ -398,7 +430,7 @@ theorem C07_shapes_other (a b : Mat K) (op : Tok K)
 /-- C07, shapes, summary: for every binary operator token, two well-shaped matrices never reach
     an assertion of the matrix code. -/
 theorem C07_shapes_no_panic (ha : Mat.IsShape a r c) (hb : Mat.IsShape b r' c') (hr : 0 < r)
-    (hc : 0 < c) (hr' : 0 < r') (hc' : 0 < c') (op : Tok K)
+    (hr' : 0 < r') (hc' : 0 < c') (op : Tok K)
     (hop : op.tag = .plus ∨ op.tag = .minus ∨ op.tag = .star ∨ op.tag = .slash ∨ op.tag = .caret
       ∨ op.tag = .percent ∨ op.tag = .dot ∨ op.tag = .cross) (s : Str) :
     binop op (.matrix a) (.matrix b) ≠ .panic s := by
